@@ -62,6 +62,9 @@ def ite(c, a, b):
     if is_num(a) and is_num(b):
         x, y = unify(a, b)
         return z3.If(c, x, y)
+    if (isinstance(a, str) or (is_z3(a) and z3.is_string(a))) and \
+            (isinstance(b, str) or (is_z3(b) and z3.is_string(b))):
+        return z3.If(c, to_z3(a), to_z3(b))          # '1' if x == 1 else '0'
     raise Unsupported(f"if-then-else over {type(a).__name__}/{type(b).__name__}")
 
 
